@@ -177,7 +177,26 @@ func buildProperty(ww *conversionVisitor, node *sourcewalk.PropertyNode) (*descr
 	return fieldDesc, nil
 }
 
+// buildField builds the field for the schema and makes sure that the file
+// imports the annotation files of every extension the field ended up with.
 func buildField(ww *conversionVisitor, node sourcewalk.FieldNode) (*descriptorpb.FieldDescriptorProto, error) {
+	desc, err := buildFieldType(ww, node)
+	if err != nil {
+		return nil, err
+	}
+	if proto.HasExtension(desc.Options, validate.E_Field) {
+		ww.file.ensureImport(bufValidateImport)
+	}
+	if proto.HasExtension(desc.Options, list_j5pb.E_Field) {
+		ww.file.ensureImport(j5ListAnnotationsImport)
+	}
+	if proto.HasExtension(desc.Options, ext_j5pb.E_Field) || proto.HasExtension(desc.Options, ext_j5pb.E_Key) {
+		ww.file.ensureImport(j5ExtImport)
+	}
+	return desc, nil
+}
+
+func buildFieldType(ww *conversionVisitor, node sourcewalk.FieldNode) (*descriptorpb.FieldDescriptorProto, error) {
 	desc := &descriptorpb.FieldDescriptorProto{
 		Options: &descriptorpb.FieldOptions{},
 	}
